@@ -650,6 +650,7 @@ static int kit_main(int argc, char** argv, Harness& hs) {
     std::string prop = argval("--prop", "");
     u64 seed = strtoull(argval("--seed", "1").c_str(), nullptr, 10);
     long run = atol(argval("--run", "0").c_str());
+    hs.warmup();
     Rng rng(run_seed(seed, hs.name(), prop, run));
     Plan plan = hs.generate(rng, prop, argval("--tier", "quick") == "thorough");
     plan.harness = hs.name(); plan.prop = prop; plan.seed = seed; plan.run = run;
